@@ -17,7 +17,8 @@ def F(name, seconds=180, pkg="internal"):
 
 
 PROPS = {
-    "C01": dict(tests=[T("TestVerifC01", 1500, 12000, shrinktime="0s", gomaxprocs=[16, 4, 2, 16])]),
+    "C01": dict(tests=[T("TestVerifC01", 1500, 12000, shrinktime="0s", gomaxprocs=[16, 4, 2, 16]),
+                       T("TestVerifC01Wide", 60, 600, shrinktime="0s")]),
     "C02": dict(tests=[T("TestVerifC02Pipeline", 15000, 200000), T("TestVerifC02Conc", 60, 600, shrinktime="0s"), F("FuzzVerifC02Pipeline")]),
     "C03": dict(tests=[T("TestVerifC03Seq", 4000, 60000), T("TestVerifC03Hybrid", 2000, 20000),
                        T("TestVerifC03Conc", 150, 1500, shrinktime="0s", gomaxprocs=[16, 4, 8, 16])]),
